@@ -20,6 +20,27 @@ pub static GETRANDOM_CALLS: AtomicU64 = AtomicU64::new(0);
 pub static CLOCK_CALLS: AtomicU64 = AtomicU64::new(0);
 static SIM_SEC: AtomicI64 = AtomicI64::new(1_700_000_000);
 static SIM_NSEC: AtomicI64 = AtomicI64::new(0);
+/// simulated time that passes with every read of the clock
+static SIM_TICK_NS: AtomicI64 = AtomicI64::new(0);
+
+pub fn set_clock_tick(ns: i64) {
+    SIM_TICK_NS.store(ns, Ordering::SeqCst);
+}
+
+/// Every clock read goes through here: the time it returns, then the tick.
+fn read_clock() -> (i64, i64) {
+    let sec = SIM_SEC.load(Ordering::SeqCst);
+    let nsec = SIM_NSEC.load(Ordering::SeqCst);
+    let tick = SIM_TICK_NS.load(Ordering::SeqCst);
+    if tick != 0 {
+        let total = nsec as i128 + tick as i128;
+        let nsec2 = total.rem_euclid(1_000_000_000) as i64;
+        let carry = total.div_euclid(1_000_000_000) as i64;
+        SIM_SEC.store(sec.saturating_add(carry), Ordering::SeqCst);
+        SIM_NSEC.store(nsec2, Ordering::SeqCst);
+    }
+    (sec, nsec)
+}
 
 /// Set the key bytes the *current thread* will receive from `getrandom`.
 pub fn set_thread_keys(k: [u8; 16]) {
@@ -50,9 +71,10 @@ pub unsafe extern "C" fn getrandom(buf: *mut libc::c_void, len: libc::size_t, _f
 #[no_mangle]
 pub unsafe extern "C" fn clock_gettime(_clk: libc::clockid_t, ts: *mut libc::timespec) -> libc::c_int {
     CLOCK_CALLS.fetch_add(1, Ordering::Relaxed);
+    let (sec, nsec) = read_clock();
     if !ts.is_null() {
-        (*ts).tv_sec = SIM_SEC.load(Ordering::SeqCst) as libc::time_t;
-        (*ts).tv_nsec = SIM_NSEC.load(Ordering::SeqCst) as libc::c_long;
+        (*ts).tv_sec = sec as libc::time_t;
+        (*ts).tv_nsec = nsec as libc::c_long;
     }
     0
 }
@@ -60,9 +82,10 @@ pub unsafe extern "C" fn clock_gettime(_clk: libc::clockid_t, ts: *mut libc::tim
 #[no_mangle]
 pub unsafe extern "C" fn gettimeofday(tv: *mut libc::timeval, _tz: *mut libc::c_void) -> libc::c_int {
     CLOCK_CALLS.fetch_add(1, Ordering::Relaxed);
+    let (sec, nsec) = read_clock();
     if !tv.is_null() {
-        (*tv).tv_sec = SIM_SEC.load(Ordering::SeqCst) as libc::time_t;
-        (*tv).tv_usec = (SIM_NSEC.load(Ordering::SeqCst) / 1000) as libc::suseconds_t;
+        (*tv).tv_sec = sec as libc::time_t;
+        (*tv).tv_usec = (nsec / 1000) as libc::suseconds_t;
     }
     0
 }
@@ -70,7 +93,7 @@ pub unsafe extern "C" fn gettimeofday(tv: *mut libc::timeval, _tz: *mut libc::c_
 #[no_mangle]
 pub unsafe extern "C" fn time(t: *mut libc::time_t) -> libc::time_t {
     CLOCK_CALLS.fetch_add(1, Ordering::Relaxed);
-    let s = SIM_SEC.load(Ordering::SeqCst) as libc::time_t;
+    let s = read_clock().0 as libc::time_t;
     if !t.is_null() {
         *t = s;
     }
